@@ -217,21 +217,31 @@ def slhcLoop (E : Env) (f : Form) : Bytes → Nat → Option Nat
 termination_by s => s.length
 decreasing_by all_goals simp_wf <;> omega
 
-/-- `singleLineHashCount` as it is in the tree -/
+/-- `len(s) >= 2 && s[0] == f.quote && s[1] == f.quote` -/
+def startsWithTwo (q : Nat) (s : Bytes) : Bool :=
+  match s with
+  | a :: b :: _ => a == q && b == q
+  | _ => false
+
+/-- `singleLineHashCount` as it is in the tree (since /repo a2b8800): after the `ContainsAny`
+test, a string that starts with two quote characters falls back to escaping (return 0),
+because `#"""x"#` would read as a multi-line opener in `ParseQuotes` and `##"""#"##` is
+rejected by the scanner. -/
 def singleLineHashCount (E : Env) (f : Form) (s : Bytes) : Nat :=
   if !(s.any fun b => b == 0x5C || b == f.quote) then 0
+  else if startsWithTwo f.quote s then 0
   else match slhcLoop E f s 1 with
     | some n => n
     | none => 0
 
-/-- `singleLineHashCount` with the one-line repair proposed in notes/C09.md: fall back to
-escaping (return 0) when `s` starts with two quote characters (`#"""x"#` would otherwise
-read as a multi-line opener in `ParseQuotes`, and `##"""#"##` is rejected by the scanner). -/
-def singleLineHashCountFixed (E : Env) (f : Form) (s : Bytes) : Nat :=
-  match s with
-  | a :: b :: _ =>
-    if a == f.quote && b == f.quote then 0 else singleLineHashCount E f s
-  | _ => singleLineHashCount E f s
+/-- OLD variant: `singleLineHashCount` as it was BEFORE /repo a2b8800 (no test of the first
+two bytes).  Kept only so that the defect it had stays a checked statement
+(`C09_roundtrip_hashes_old_false`); it is not tied to the tree any more. -/
+def singleLineHashCountOld (E : Env) (f : Form) (s : Bytes) : Nat :=
+  if !(s.any fun b => b == 0x5C || b == f.quote) then 0
+  else match slhcLoop E f s 1 with
+    | some n => n
+    | none => 0
 
 /-- `requiredHashCount` -/
 def rhcLoop (q : Nat) : Bytes → Nat → Nat
@@ -272,8 +282,8 @@ def quoteWith (slhc : Env → Form → Bytes → Nat) (E : Env) (f : Form) (s : 
 
 /-- the code as it is -/
 def quote (E : Env) (f : Form) (s : Bytes) : Bytes := quoteWith singleLineHashCount E f s
-/-- the code with the proposed repair of `singleLineHashCount` -/
-def quoteFixed (E : Env) (f : Form) (s : Bytes) : Bytes := quoteWith singleLineHashCountFixed E f s
+/-- OLD variant (before /repo a2b8800), see `singleLineHashCountOld` -/
+def quoteOld (E : Env) (f : Form) (s : Bytes) : Bytes := quoteWith singleLineHashCountOld E f s
 
 /-! ### string.go -/
 
@@ -386,8 +396,9 @@ inductive UC where
 
 /-- the escape switch of `unquoteChar`: `e` is the character after the backslash and the
 hashes, `t` what follows it.  `v` of `\U` escapes is a Go `rune` (int32): eight hex digits
-with the top bit set wrap to a negative number, which the caller interprets as one of the
-three sentinels (-1, -2, -3) or hits `panic("unreachable")`; modelled as such. -/
+with the top bit set wrap to a negative number; since /repo 4627158 the test is
+`v < 0 || v > utf8.MaxRune`, so these are syntax errors (before, they collided with the
+sentinels -1, -2, -3 or hit `panic("unreachable")`). -/
 def unquoteEscape (q : QuoteInfo) (e : Nat) (t : Bytes) : Except Err (UC × Bytes) :=
   if e == 0x61 then .ok (.char 7 false, t)
   else if e == 0x62 then .ok (.char 8 false, t)
@@ -406,13 +417,7 @@ def unquoteEscape (q : QuoteInfo) (e : Nat) (t : Bytes) : Except Err (UC × Byte
         let t' := t.drop n
         if e == 0x78 then
           if q.char == 0x22 then .error .syntax else .ok (.char v false, t')
-        else if v ≥ 2147483648 then
-          -- int32 wrap-around of `var v rune`
-          if v == 4294967295 then .ok (.termQuote, t')
-          else if v == 4294967294 then .ok (.termExpr, t')
-          else if v == 4294967293 then .ok (.escNewline, t')
-          else .error .panic
-        else if v > 0x10FFFF then .error .syntax
+        else if decide (v ≥ 2147483648) || decide (v > 0x10FFFF) then .error .syntax   -- `v < 0 || v > utf8.MaxRune`
         else .ok (.char v true, t')
   else if 0x30 ≤ e && e ≤ 0x37 then
     if q.char == 0x22 then .error .syntax
